@@ -50,6 +50,46 @@ PROPS = {
         oracle='c02',
         leaf_filter=['_size', '_pack', 'zigzag', 'get_type_min_size', 'sizeof_elt'],
     ),
+    'C01': dict(
+        title='pack then unpack returns an equal message',
+        modules=['Pbc.Lemmas.Elem', 'Pbc.Props.C02'],
+        theorems=['Pbc.Lemmas.parseScalar_scalarBytes', 'Pbc.Lemmas.scanKey_keyBytes', 'Pbc.Lemmas.scanLen_lenPrefixed',
+                  'Pbc.Lemmas.scalarBytes_scan_varint', 'Pbc.Lemmas.unzigzag32_zigzag32', 'Pbc.Lemmas.unzigzag64_zigzag64',
+                  'Pbc.Lemmas.loadLE_le32', 'Pbc.Lemmas.loadLE_le64', 'Pbc.Props.C02.packMsg_length'],
+        refine=PACK_LEAVES + PARSE_LEAVES + TABLE_LEAVES,
+        cases=[('msg', 300, 5000, []), ('leaf', 20, 200, [])],
+        oracle='c01',
+    ),
+    'C05': dict(
+        title='parsing arbitrary bytes is memory-safe and always terminates',
+        modules=['Pbc.Props.C05'],
+        theorems=['Pbc.Props.C05.pass2_count_le_pass1', 'Pbc.Props.C05.parsePackedVarints_count', 'Pbc.Props.C05.scanStep_consumes',
+                  'Pbc.Props.C05.scanLoop_fuel_irrelevant', 'Pbc.Props.C05.scanStep_member_shorter', 'Pbc.Props.C05.delimit_bounds',
+                  'Pbc.Props.C05.scanKey_used', 'Pbc.Props.C05.scanLen_bounds'],
+        refine=PARSE_LEAVES + TABLE_LEAVES,
+        cases=[('wire', 500, 8000, []), ('leaf', 30, 300, [])],
+        oracle='c05',
+        leaf_filter=['parse_', 'scan_', 'unzigzag', 'max_b128', 'int_range', 'sizeof_elt', 'is_packable'],
+    ),
+    'C06': dict(
+        title='whatever the parser accepts is well-formed, re-serialisable and stable',
+        modules=['Pbc.Props.C02', 'Pbc.Lemmas.Elem'],
+        theorems=['Pbc.Props.C02.packMsg_length', 'Pbc.Props.C02.chunksMsg_flatten', 'Pbc.Props.C02.chunks_total',
+                  'Pbc.Lemmas.scanKey_keyBytes', 'Pbc.Lemmas.scanLen_lenPrefixed'],
+        refine=PARSE_LEAVES + PACK_LEAVES,
+        cases=[('wire', 500, 8000, [])],
+        oracle='c06',
+    ),
+    'C11': dict(
+        title='missing required fields are always detected, never misjudged',
+        modules=['Pbc.Props.C11'],
+        theorems=['Pbc.Props.C11.resolveField_spec', 'Pbc.Props.C11.scanStep_inv', 'Pbc.Props.C11.scanLoop_inv',
+                  'Pbc.Props.C11.success_implies_required_present', 'Pbc.Props.C11.missing_required_rejected',
+                  'Pbc.Props.C11.only_required_fields_matter'],
+        refine=['parse_tag_and_wiretype_spec', 'scan_length_prefixed_data_spec', 'scan_varint_spec'],
+        cases=[('req', 300, 5000, []), ('wire', 150, 2000, [])],
+        oracle='c11',
+    ),
     'C18': dict(
         title='the append buffer holds exactly what was appended, for any history',
         modules=['Pbc.Props.C18', 'Pbc.Props.C02'],
